@@ -182,6 +182,8 @@ def run(index, tier="quick", seed=0) -> Result:
         res.ok("DET-SIGN", "ConvexPolyhedron._calculate_signed_volume")
     # ---------------------------------------------------------------- PAX
     _pax(res, index)
+    from ..parallel import report as _copy1
+    _copy1(res, index, lambda f: f['cls'] == 'ConvexPolyhedron' and f['top'] in ('_compute_inertia_tensor', '_calculate_signed_volume', '_centroid_from_triangulated_surface', '_find_face_centroids', 'get_face_area', '_find_triangle_array_area', 'inertia_tensor'))
     return res
 
 
